@@ -439,6 +439,15 @@ func cmdCheck(args []string) int {
 		if len(bad) > 1 {
 			suffix = fmt.Sprintf(" (+%d more failing cases of this obligation)", len(bad)-1)
 		}
+		if !isLocked && strings.HasSuffix(shown.Clause, ".callers") && shown.Status == "sat" {
+			// a caller whitelist is a closed list in the contract (decided syntactically, no solver
+			// involved): a call from a function that is not on it is new by nature, so it cannot
+			// be in the baseline lock, and it is a violation of the named obligation
+			violations++
+			path := writeNoInputReplay(replayDir, prop, shown, rp)
+			violLines = append(violLines, fmt.Sprintf("VIOLATION property=%s replay=%s obligation=%s caller not on the callee's whitelist%s no-failing-input-found", prop, path, shown.Name, suffix))
+			continue
+		}
 		if !isLocked {
 			// never proved on the baseline: only a confirmed replay makes it a violation
 			if rp != nil && rp.Confirmed {
